@@ -15,7 +15,7 @@ import (
 var soupIdents = []string{"a", "X", "ab", "NAME", "é", "_", "tasky", "taskX", "tasks", "task_a", "task", "t", "join", "exec", "中", ""}
 var soupStrings = []string{`""`, `"a"`, `"a b"`, `" x "`, `"*.go"`, `"#"`, `"{"`, `"}"`, `"a, b"`, `"é"`, `"->"`, `":="`, `"task"`, `"x`, `x"`, `"a\t"`}
 var soupComments = []string{"", " ", "  ", "\t", " a", "a", " doc text", " a  b ", "#", "# x", " task t() {}", " \"q\"", " é", "0", " x := 1"}
-var soupCmds = []string{"a\r", "echo hi\r", "x \r", "a\r\r", "b\r ", "go test ./...", "echo {{.X}}", "a", "echo hi ", "echo \"x\"", "x\t", "echo hi\t ", "ls -la | wc", "echo {{.A}}{{.B}}", "é", "echo #c", "echo }", "1x", "echo {", "echo {{.X}} ", "b  c"}
+var soupCmds = []string{"echo {{.A |", "upper}} x", "echo {{", "}} y", "a\r", "echo hi\r", "x \r", "a\r\r", "b\r ", "go test ./...", "echo {{.X}}", "a", "echo hi ", "echo \"x\"", "x\t", "echo hi\t ", "ls -la | wc", "echo {{.A}}{{.B}}", "é", "echo #c", "echo }", "1x", "echo {", "echo {{.X}} ", "b  c"}
 var soupSeps = []string{"\n", "\n", "\n", "\n", "\r\n", "\r\n", " ", " ", "", "\n\n", "\t", "\r", "\n \n", " \n"}
 var soupSp = []string{"", "", " ", " ", "\t", "  ", "\n"}
 var soupJunk = Alphabet
@@ -42,6 +42,10 @@ func soupArgs(t *rapid.T, b *strings.Builder) {
 				b.WriteString(",")
 			case 3:
 				b.WriteString(",,")
+			case 4:
+				b.WriteString(",\n    ")
+			case 5:
+				b.WriteString("\n")
 			default:
 				b.WriteString(", ")
 			}
@@ -52,6 +56,9 @@ func soupArgs(t *rapid.T, b *strings.Builder) {
 // Soup draws one permissive input.
 func Soup(t *rapid.T) string {
 	var b strings.Builder
+	if rapid.IntRange(0, 24).Draw(t, "bom") == 0 {
+		b.WriteString("\uFEFF") // a byte order mark, as written by some editors
+	}
 	if rapid.IntRange(0, 5).Draw(t, "leadsep") == 0 {
 		b.WriteString(soupPick(t, "sep", soupSeps))
 	}
@@ -75,7 +82,9 @@ func Soup(t *rapid.T) string {
 				b.WriteString(soupPick(t, "fn", soupIdents))
 				b.WriteString("(")
 				soupArgs(t, &b)
-				b.WriteString(")")
+				if rapid.IntRange(0, 9).Draw(t, "fnrparen") != 0 {
+					b.WriteString(")")
+				}
 			default:
 				b.WriteString(soupPick(t, "rhsstr", soupStrings))
 			}
